@@ -152,6 +152,8 @@ __CPROVER_ensures (__CPROVER_return_value == TRUE ==> socket->connected)
 __CPROVER_ensures (__CPROVER_return_value == TRUE ==> (g_xfer_ok || (g_polls >= 1 && g_poll_rc == 1 && g_so_error == 0)))
 /* the outcome of an asynchronous connect is read AFTER the wait reported writability (before that SO_ERROR is still 0 whatever happens later) */
 __CPROVER_ensures ((__CPROVER_return_value == TRUE && !g_xfer_ok) ==> g_so_error_read_at_polls >= 1)
+/* EINTR transparency: an interrupted connect() is issued again (in the fault model of C19 an interrupted call has done nothing); the call never goes on to wait for a connect() whose last answer was EINTR */
+__CPROVER_ensures ((__CPROVER_return_value == TRUE && !g_xfer_ok) ==> g_xfer_errno != EINTR)
 __CPROVER_ensures ((!socket->closed && __CPROVER_return_value == FALSE) ==> (g_err_calls >= 1 && !(g_err_code == P_ERROR_IO_FAILED && g_err_native == EINTR)))
 /* non-blocking: in-progress is reported at once, no waiting */
 __CPROVER_ensures (!socket->blocking ==> g_polls == 0)
